@@ -45,6 +45,21 @@ CHECKS = {
  "C14": ("same explicit-state graph as C13: every transition compared with the free string functions (by address) and a std-based reference model; split protocols replayed from every initial state",
          "On every transition of the Parser state graph: post-remainder equals what string::{strip_*,trim*,trim_*_matches,find_skip,rfind_skip} compute from the pre-remainder and what a boring std-based model predicts (split_once/rsplit_once/find/prefix-integer/bool), Ok iff the reference finds something, documented error kind, returned piece/number; repeating split/rsplit/split_terminator/rsplit_terminator from each initial state against str::split/rsplit.",
          "3/C14"),
+ "C10": ("program-space exploration: all adapter chains up to a depth bound generated from the method grammar (std-typeable compositions only) x all consumers, compiled by rustc and run on all small input arrays next to the identical std chain",
+         "Every chain of the 18 adapter instances up to the depth bound over 5 sources x for_each!/14 eval! consumers/collect_const!, each executed on every input array over a small alphabet up to the length bound and compared with the same std chain (enumerate as EnumInOrder, rposition as rev().position()); unexpected rejections by rustc are violations; the known deviation (order-sensitive adapter before a reversal) is matched behaviourally against the reverse-hoisted model and reported as KNOWN-FINDING F7.",
+         "3/C10"),
+ "C11": ("program-space exploration of array-macro invocations x closure behaviours (every early-exit kind at every element) plus exhaustive operation histories on ArrayBuilder with a reference model",
+         "array::map!/map_!/from_fn!/from_fn_!/collect_const! for every length up to the bound, element types, parameter forms and closure behaviours (well-behaved or break/continue/return/?/labelled break/continue/panic at each element): well-behaved programs must equal std, hostile ones must not yield any array other than std's; ArrayBuilder: every push/build/clone/drop history up to depth N+4 incl. over- and under-filling against a vec model.",
+         "3/C11"),
+ "C15": ("exhaustive exploration by re-execution of every operation history on ArrayConsumer/ArrayBuilder over a drop-tracking element type with a ledger; program-space exploration of every destructure! pattern shape",
+         "Every next/next_back/drop/assert_is_empty/clone history (two live objects, start from new() or empty()) up to depth N+4 for N<=4 with as_slice checked and as_mut_slice written after every step: the ledger must show each element handed out or dropped exactly once, in order, payload intact; map_!/from_fn_! with a closure panicking at each element; destructure! over braced/tuple structs, tuples of arity 1..=16, arrays with every prefix/rest/suffix split, `_`, `..`, packed and generic/ZST fields, checking bound values, immediate drops and the final ledger.",
+         "3/C15"),
+ "C19": ("program-space exploration: every option::/result:: macro x argument form x every small input, try_!/try_opt!, rebind macros for every arity 1..=6 x position kinds, min/max family on all pairs of keyed values, each next to its std counterpart",
+         "Each macro and accepted argument form (closure, function path) on every value of its small input set with value and fallback-call-count compared with std; try_rebind!/rebind_if_ok! for arities 1..=6 (all kind assignments up to arity 3, uniform and single-position variations above, places that alias or depend on earlier components), rejections by rustc count as violations; min!/max!/_by/_by_key on all ordered pairs of (key,id) values.",
+         "3/C19"),
+ "C20": ("program-space exploration of constant argument lists for str_concat!/str_join!/from_iter!/slice_concat! evaluated at compile time, plus exhaustive byte strings for the CStr functions, against std",
+         "All lists of 0..=3 pieces over an alphabet with multi-byte strings/chars x all separators x three argument forms, each evaluated by rustc in its own const and compared with concat/join/collect at run time; CStr constructors and conversions on all byte strings up to length 6 over {0,'a',C3,B1,FF} against core::ffi::CStr (success agreement, equal CStr, bytes by address).",
+         "3/C20"),
 }
 
 NOT_APPLICABLE = {}
@@ -64,6 +79,7 @@ def main():
             "add_only": True,
         },
         "engines": [
+            {"name": "e3", "path": "lib", "serves_properties": ["C10", "C11", "C15", "C17", "C18", "C19", "C20"], "kind_free_text": "python generators of finite program families (macro invocations from a grammar), compiled by the real rustc against /repo and executed next to std; compile-fail families decided by cargo check --message-format=json"},
             {"name": "rt", "path": "harness/rt", "serves_properties": sorted(CHECKS), "kind_free_text": "native bounded-exhaustive explorers (input enumeration, history trees, state graphs) running the real konst code lock-step with std reference objects"},
         ],
         "checks": [],
@@ -79,7 +95,7 @@ def main():
                 "thorough_cmd": f"./check {pid} --tier thorough",
                 "evidence_file": f"/verif/evidence/{pid}.json",
                 "replay_cmd_template": f"./check {pid} --replay {{path}}",
-                "engine": "rt",
+                "engine": "rt" if pid not in ("C10", "C17", "C18", "C19") else "e3",
                 "level_claimed": {"category": "model_checking", "text": text, "design_ref": f"DESIGN.md section {ref}"},
                 "level_note": COMMON_NOTE,
                 "technique": tech,
